@@ -179,4 +179,180 @@ theorem reach_sound {Γ : Ctx} {L L' : List LoopSpec} {fs fs' : List Expr} {env 
       · rw [constVal_some h0] at hck; simp [evalI] at hck
       · exact ih hwb (wf_cons hl hsp) (by simp [hcb]) (situation_cond Shd hcc hck)
 
+/-! ## the points the driver reports are points of `Reach` -/
+
+/-- `Reach` without the run-time premises: the syntactic program points and the situation
+the checker computes for each -/
+inductive SynReach : List LoopSpec → List Expr → FStmt → List LoopSpec → List Expr → FStmt → Prop
+  | here {L fs s} : SynReach L fs s L fs s
+  | seqL {L fs a b L' fs' s'} : SynReach L fs a L' fs' s' → SynReach L fs (.seq a b) L' fs' s'
+  | seqR {L fs fs1 a b L' fs' s'} : checkS L fs a = some fs1 → SynReach L fs1 b L' fs' s' →
+      SynReach L fs (.seq a b) L' fs' s'
+  | iteT {L fs c t e L' fs' s'} : SynReach L (condFacts fs c) t L' fs' s' →
+      SynReach L fs (.ite c t e) L' fs' s'
+  | iteF {L fs fe c t e L' fs' s'} : invFacts fs c = some fe → SynReach L fe e L' fs' s' →
+      SynReach L fs (.ite c t e) L' fs' s'
+  | body {L fs sp c body L' fs' s'} : SynReach (sp :: L) (bodyFacts sp c) body L' fs' s' →
+      SynReach L fs (.while sp c body) L' fs' s'
+
+/-- every run-time point is a syntactic point with the same situation -/
+theorem reach_syn {Γ : Ctx} {L L' : List LoopSpec} {fs fs' : List Expr} {env env' : Env}
+    {s s' : FStmt} (h : Reach Γ L fs env s L' fs' env' s') : SynReach L fs s L' fs' s' := by
+  induction h with
+  | here => exact .here
+  | seqL _ ih => exact .seqL ih
+  | seqR hc _ _ ih => exact .seqR hc ih
+  | iteT _ _ ih => exact .iteT ih
+  | iteF _ hi _ ih => exact .iteF hi ih
+  | body _ _ _ ih => exact .body ih
+
+theorem points_none :
+    ∀ (s : FStmt), (∀ L, ∀ p ∈ points L none s, p = none) ∧ (∀ L, ∀ p ∈ innerPoints L none s, p = none) := by
+  intro s
+  induction s with
+  | seq a b iha ihb =>
+    refine ⟨?_, ?_⟩
+    · intro L p hp
+      simp only [points, List.mem_append, List.mem_singleton, List.append_assoc, List.cons_append,
+        List.nil_append, List.mem_cons] at hp
+      rcases hp with h | h | h
+      · exact h
+      · exact iha.2 L p h
+      · have : (if a.endsFlow = true then none else (none : Option (List Expr)).bind (checkS L · a)) = none := by
+          split <;> rfl
+        rw [this] at h
+        exact ihb.1 L p h
+    · intro L p hp; simp [innerPoints] at hp
+  | ite c t e iht ihe =>
+    refine ⟨?_, ?_⟩
+    · intro L p hp; simpa [points] using hp
+    · intro L p hp
+      simp only [innerPoints, Option.map_none, Option.bind_none, List.mem_append] at hp
+      rcases hp with h | h
+      · exact iht.1 L p h
+      · split at h
+        · cases h
+        · exact ihe.1 L p h
+  | «while» sp c body ihb =>
+    refine ⟨?_, ?_⟩
+    · intro L p hp; simpa [points] using hp
+    · intro L p hp
+      simp only [innerPoints, Option.map_none] at hp
+      exact ihb.1 _ p hp
+  | skip => exact ⟨fun L p hp => by simpa [points] using hp, fun L p hp => by simp [innerPoints] at hp⟩
+  | base st => exact ⟨fun L p hp => by simpa [points] using hp, fun L p hp => by simp [innerPoints] at hp⟩
+  | assert c r => exact ⟨fun L p hp => by simpa [points] using hp, fun L p hp => by simp [innerPoints] at hp⟩
+  | jump b k => exact ⟨fun L p hp => by simpa [points] using hp, fun L p hp => by simp [innerPoints] at hp⟩
+  | call args => exact ⟨fun L p hp => by simpa [points] using hp, fun L p hp => by simp [innerPoints] at hp⟩
+  | yield => exact ⟨fun L p hp => by simpa [points] using hp, fun L p hp => by simp [innerPoints] at hp⟩
+  | cocall args => exact ⟨fun L p hp => by simpa [points] using hp, fun L p hp => by simp [innerPoints] at hp⟩
+  | ret e => exact ⟨fun L p hp => by simpa [points] using hp, fun L p hp => by simp [innerPoints] at hp⟩
+
+/--
+**points_are_reach_points**: every situation that the model reports for a program point
+(`points`, what the driver prints for `pt k` and the harness compares with the real
+checker's `assert false` probe) is the situation of a syntactic point of `Reach` — the
+points `facts_hold` speaks about.
+-/
+theorem points_syn :
+    ∀ (s : FStmt),
+      (∀ L fs p fs', p ∈ points L (some fs) s → p = some fs' → ∃ L' s', SynReach L fs s L' fs' s') ∧
+      (∀ L fs p fs', p ∈ innerPoints L (some fs) s → p = some fs' → ∃ L' s', SynReach L fs s L' fs' s') := by
+  intro s
+  induction s with
+  | seq a b iha ihb =>
+    refine ⟨?_, ?_⟩
+    · intro L fs p fs' hp he
+      simp only [points, List.mem_append, List.mem_singleton, List.append_assoc, List.cons_append,
+        List.nil_append, List.mem_cons] at hp
+      rcases hp with h | h | h
+      · subst h; cases he; exact ⟨L, _, .here⟩
+      · obtain ⟨L', s', hr⟩ := iha.2 L fs p fs' h he
+        exact ⟨L', s', .seqL hr⟩
+      · by_cases hef : a.endsFlow = true
+        · simp only [hef, if_true] at h
+          have := (points_none b).1 L p h
+          subst this; cases he
+        · simp only [hef, Option.bind_some] at h
+          cases hc : checkS L fs a with
+          | none =>
+            simp only [hc] at h
+            have := (points_none b).1 L p h
+            subst this; cases he
+          | some fs1 =>
+            simp only [hc] at h
+            obtain ⟨L', s', hr⟩ := ihb.1 L fs1 p fs' h he
+            exact ⟨L', s', .seqR hc hr⟩
+    · intro L fs p fs' hp; simp [innerPoints] at hp
+  | ite c t e iht ihe =>
+    refine ⟨?_, ?_⟩
+    · intro L fs p fs' hp he
+      simp only [points, List.mem_singleton] at hp
+      subst hp; cases he; exact ⟨L, _, .here⟩
+    · intro L fs p fs' hp he
+      simp only [innerPoints, Option.map_some, Option.bind_some, List.mem_append] at hp
+      rcases hp with h | h
+      · obtain ⟨L', s', hr⟩ := iht.1 L _ p fs' h he
+        exact ⟨L', s', .iteT hr⟩
+      · split at h
+        · cases h
+        · cases hi : invFacts fs c with
+          | none =>
+            simp only [hi] at h
+            have := (points_none e).1 L p h
+            subst this; cases he
+          | some fe =>
+            simp only [hi] at h
+            obtain ⟨L', s', hr⟩ := ihe.1 L fe p fs' h he
+            exact ⟨L', s', .iteF hi hr⟩
+  | «while» sp c body ihb =>
+    refine ⟨?_, ?_⟩
+    · intro L fs p fs' hp he
+      simp only [points, List.mem_singleton] at hp
+      subst hp; cases he; exact ⟨L, _, .here⟩
+    · intro L fs p fs' hp he
+      simp only [innerPoints, Option.map_some] at hp
+      obtain ⟨L', s', hr⟩ := ihb.1 _ _ p fs' hp he
+      exact ⟨L', s', .body hr⟩
+  | skip =>
+    refine ⟨?_, fun L fs p fs' hp => by simp [innerPoints] at hp⟩
+    intro L fs p fs' hp he
+    simp only [points, List.mem_singleton] at hp
+    subst hp; cases he; exact ⟨L, _, .here⟩
+  | base st =>
+    refine ⟨?_, fun L fs p fs' hp => by simp [innerPoints] at hp⟩
+    intro L fs p fs' hp he
+    simp only [points, List.mem_singleton] at hp
+    subst hp; cases he; exact ⟨L, _, .here⟩
+  | assert c r =>
+    refine ⟨?_, fun L fs p fs' hp => by simp [innerPoints] at hp⟩
+    intro L fs p fs' hp he
+    simp only [points, List.mem_singleton] at hp
+    subst hp; cases he; exact ⟨L, _, .here⟩
+  | jump b k =>
+    refine ⟨?_, fun L fs p fs' hp => by simp [innerPoints] at hp⟩
+    intro L fs p fs' hp he
+    simp only [points, List.mem_singleton] at hp
+    subst hp; cases he; exact ⟨L, _, .here⟩
+  | call args =>
+    refine ⟨?_, fun L fs p fs' hp => by simp [innerPoints] at hp⟩
+    intro L fs p fs' hp he
+    simp only [points, List.mem_singleton] at hp
+    subst hp; cases he; exact ⟨L, _, .here⟩
+  | yield =>
+    refine ⟨?_, fun L fs p fs' hp => by simp [innerPoints] at hp⟩
+    intro L fs p fs' hp he
+    simp only [points, List.mem_singleton] at hp
+    subst hp; cases he; exact ⟨L, _, .here⟩
+  | cocall args =>
+    refine ⟨?_, fun L fs p fs' hp => by simp [innerPoints] at hp⟩
+    intro L fs p fs' hp he
+    simp only [points, List.mem_singleton] at hp
+    subst hp; cases he; exact ⟨L, _, .here⟩
+  | ret e =>
+    refine ⟨?_, fun L fs p fs' hp => by simp [innerPoints] at hp⟩
+    intro L fs p fs' hp he
+    simp only [points, List.mem_singleton] at hp
+    subst hp; cases he; exact ⟨L, _, .here⟩
+
 end WuffsVerif.Proof.Flow
